@@ -122,6 +122,129 @@ theorem step_pidOf (g : G) (t : Tid) (i : Bool) : (g.step t i).pidOf = g.pidOf :
       | none => simp [G.setCall, G.setRet]
       | some x => obtain ⟨hid, y⟩ := x; simp [G.setCall, G.setRet, G.setHandle]
 
+/-! ### a scripted failure (`G.fail`): the OS is untouched, no handle appears, the log records the failed call -/
+
+theorem semNew_after_err (s : SemNewSt) (e : Errno) (x : PSem) : s.after (.err e) ≠ .done (.ok x) := by
+  obtain ⟨key, mode, init, pc⟩ := s
+  cases pc <;> cases e <;> cases mode <;> simp [SemNewSt.after] <;> (repeat' split) <;> simp
+
+theorem shmNew_after_err (s : ShmNewSt) (e : Errno) (x : PShm) : s.after (.err e) ≠ .done (.ok x) := by
+  obtain ⟨key, req, ro, created, isExists, size, addr, pc⟩ := s
+  cases pc with
+  | sem st =>
+    simp only [ShmNewSt.after]
+    have := semNew_after_err st e
+    split
+    · simp
+    · rename_i ps h; exact absurd h (this ps)
+    · simp only [ShmNewSt.cleanFrom]; (repeat' split) <;> simp
+  | _ => cases e <;> simp [ShmNewSt.after, ShmNewSt.cleanFrom] <;> (repeat' split) <;> simp
+
+/-- a failed system call never completes a call with a new handle -/
+theorem after_err_no_handle (c : Call) (e : Errno) (ret : Ret) (hid : Hid) (x : Handle) :
+    c.after (.err e) ≠ .done (ret, some (hid, x)) := by
+  cases c with
+  | semNew h s =>
+    simp only [Call.after]
+    have := semNew_after_err s e
+    split
+    · simp
+    · rename_i y hy; exact absurd hy (this y)
+    · simp
+  | semFree s => simp only [Call.after]; split <;> simp
+  | acquire h => simp only [Call.after]; split <;> simp
+  | release h => simp only [Call.after]; split <;> simp
+  | shmNew h s =>
+    simp only [Call.after]
+    have := shmNew_after_err s e
+    split
+    · simp
+    · rename_i y hy; exact absurd hy (this y)
+    · simp
+  | shmFree s => simp only [Call.after]; split <;> simp
+
+theorem fail_none (g : G) (t : Tid) (e : Errno) (h : g.calls t = none) : g.fail t e = g := by
+  simp [G.fail, h]
+
+theorem fail_os (g : G) (t : Tid) (e : Errno) : (g.fail t e).os = g.os := by
+  unfold G.fail
+  split
+  · rfl
+  · rename_i c hc
+    simp only
+    cases hr : c.after (.err e) with
+    | cont c' => simp [G.setCall]
+    | done r =>
+      obtain ⟨ret, nh⟩ := r
+      cases nh with
+      | none => simp [G.setCall, G.setRet]
+      | some x => obtain ⟨hid, y⟩ := x; simp [G.setCall, G.setRet, G.setHandle]
+
+theorem fail_pidOf (g : G) (t : Tid) (e : Errno) : (g.fail t e).pidOf = g.pidOf := by
+  unfold G.fail
+  split
+  · rfl
+  · rename_i c hc
+    simp only
+    cases hr : c.after (.err e) with
+    | cont c' => simp [G.setCall]
+    | done r =>
+      obtain ⟨ret, nh⟩ := r
+      cases nh with
+      | none => simp [G.setCall, G.setRet]
+      | some x => obtain ⟨hid, y⟩ := x; simp [G.setCall, G.setRet, G.setHandle]
+
+theorem fail_hs (g : G) (t : Tid) (e : Errno) : (g.fail t e).hs = g.hs := by
+  unfold G.fail
+  split
+  · rfl
+  · rename_i c hc
+    simp only
+    cases hr : c.after (.err e) with
+    | cont c' => simp [G.setCall]
+    | done r =>
+      obtain ⟨ret, nh⟩ := r
+      cases nh with
+      | none => simp [G.setCall, G.setRet]
+      | some x => obtain ⟨hid, y⟩ := x; exact absurd hr (after_err_no_handle c e ret hid y)
+
+theorem fail_log (g : G) (t : Tid) (e : Errno) (c : Call) (h : g.calls t = some c) :
+    (g.fail t e).log = ⟨t, g.pidOf t, c.next, .err e⟩ :: g.log := by
+  simp only [G.fail, h]
+  cases hr : c.after (.err e) with
+  | cont c' => simp [G.setCall]
+  | done r =>
+    obtain ⟨ret, nh⟩ := r
+    cases nh with
+    | none => simp [G.setCall, G.setRet]
+    | some x => obtain ⟨hid, y⟩ := x; simp [G.setCall, G.setRet, G.setHandle]
+
+/-- the call slot of the failing thread -/
+theorem fail_calls_self (g : G) (t : Tid) (e : Errno) (c : Call) (h : g.calls t = some c) :
+    (g.fail t e).calls t = (match c.after (.err e) with | .cont c' => some c' | .done _ => none) := by
+  simp only [G.fail, h]
+  cases hr : c.after (.err e) with
+  | cont c' => simp [G.setCall]
+  | done r =>
+    obtain ⟨ret, nh⟩ := r
+    cases nh with
+    | none => simp [G.setCall, G.setRet]
+    | some x => obtain ⟨hid, y⟩ := x; simp [G.setCall, G.setRet, G.setHandle]
+
+theorem fail_calls_other (g : G) (t : Tid) (e : Errno) (t' : Tid) (h : t' ≠ t) : (g.fail t e).calls t' = g.calls t' := by
+  unfold G.fail
+  split
+  · rfl
+  · rename_i c hc
+    simp only
+    cases hr : c.after (.err e) with
+    | cont c' => simp [G.setCall, h]
+    | done r =>
+      obtain ⟨ret, nh⟩ := r
+      cases nh with
+      | none => simp [G.setCall, G.setRet, h]
+      | some x => obtain ⟨hid, y⟩ := x; simp [G.setCall, G.setRet, G.setHandle, h]
+
 theorem kill_os (g : G) (p : Pid) : (g.kill p).os = g.os.kill p := rfl
 
 theorem kill_semNames (g : G) (p : Pid) : (g.kill p).os.semNames = g.os.semNames := rfl
@@ -423,6 +546,11 @@ theorem agree_exec (k : SemKey) (o : ObjId) (g : G) (a : Action) (h : Agree k o 
     refine ⟨by simp only [exec]; rw [kill_semNames]; exact hn, ?_⟩
     intro h' q x hx
     exact hh h' q x (kill_hs g p h' q x hx)
+  | fail t e =>
+    simp only [exec]
+    refine ⟨by rw [fail_os]; exact hn, ?_⟩
+    intro h' p x hx
+    rw [fail_hs] at hx; exact hh h' p x hx
   | step t i =>
     simp only [exec]
     cases hc : g.calls t with
@@ -508,7 +636,11 @@ def acquired (o : ObjId) (log : List Ev) : Nat :=
   (log.filter fun e => decide (e.sys = .semWait o ∧ e.res = .ok 0)).length
 
 def released (o : ObjId) (log : List Ev) : Nat :=
-  (log.filter fun e => decide (e.sys = .semPost o)).length
+  (log.filter fun e => decide (e.sys = .semPost o ∧ e.res = .ok 0)).length
+
+/-- a `sem_post` that is performed succeeds (a failing one is a scripted `G.fail`) -/
+theorem sysStep_semPost_res (p : Pid) (i : Bool) (o : ObjId) (os : OS) : (sysStep p i (.semPost o) os).2 = .ok 0 := by
+  simp [sysStep, Sys.interruptible]
 
 theorem counter_exec (g : G) (a : Action) (o : ObjId) (ho : o < g.os.nextObj) :
     ((exec g a).os.sems o).value + acquired o (exec g a).log + released o g.log
@@ -522,6 +654,15 @@ theorem counter_exec (g : G) (a : Action) (o : ObjId) (ho : o < g.os.nextObj) :
   | kill p =>
     simp only [exec]
     exact ⟨rfl, ho⟩
+  | fail t e =>
+    -- a failed call changes no counter and is neither a successful acquisition nor a successful release
+    simp only [exec]
+    cases hc : g.calls t with
+    | none => rw [fail_none g t e hc]; exact ⟨rfl, ho⟩
+    | some c =>
+      rw [fail_os, fail_log g t e c hc]
+      refine ⟨?_, ho⟩
+      simp [acquired, released]
   | step t i =>
     simp only [exec]
     cases hc : g.calls t with
@@ -543,7 +684,8 @@ theorem counter_exec (g : G) (a : Action) (o : ObjId) (ho : o < g.os.nextObj) :
           omega
       · by_cases e3 : cn = .semPost o
         · subst e3
-          simp at hv ⊢
+          have hp : r.2 = .ok 0 := by rw [← hr, hcn]; exact sysStep_semPost_res _ _ _ _
+          simp [hp] at hv ⊢
           omega
         · simp [e1, e3] at hv ⊢
           omega
@@ -1263,6 +1405,7 @@ theorem shm_binding_execAll (k : ShmKey) (s : SegId) (as : List Action) :
     cases a with
     | start t op => simp only [exec]; rw [start_shmNames]; exact h
     | kill p => exact h
+    | fail t e => simp only [exec]; rw [fail_os]; exact h
     | step t i =>
       simp only [exec]
       cases hc : g.calls t with
@@ -1295,5 +1438,33 @@ theorem shm_unlink_only_by (c : Call) (k : ShmKey) (h : c.next = .shmUnlink k) :
     | unlink => simp [Call.next, ShmFreeSt.next] at h; exact ⟨_, rfl, rfl, h⟩
     | sem s => obtain ⟨hd', pc'⟩ := s; cases pc' <;> simp [Call.next, ShmFreeSt.next, SemFreeSt.next] at h
     | munmap => simp [Call.next, ShmFreeSt.next] at h
+
+/-! ## sequential runs with scripted failures (`G.callF`) -/
+
+theorem runCallF_none (g : G) (t : Tid) (fs : List (Nat × Errno)) (i fuel : Nat) (h : g.calls t = none) :
+    runCallF g t fs i fuel = g := by
+  cases fuel <;> simp [runCallF, h]
+
+theorem runCallF_some (g : G) (t : Tid) (fs : List (Nat × Errno)) (i fuel : Nat) (c : Call) (h : g.calls t = some c) :
+    runCallF g t fs i (fuel + 1) =
+      (match fs.find? (·.1 = i) with
+       | some (_, e) => runCallF (g.fail t e) t fs (i + 1) fuel
+       | none =>
+         match (g.step t false).log with
+         | ⟨_, _, _, .block⟩ :: _ => g.step t false
+         | _ => runCallF (g.step t false) t fs (i + 1) fuel) := by
+  rw [runCallF]
+  simp only [h]
+  rfl
+
+macro "fail_simp" " [" ts:Lean.Parser.Tactic.simpLemma,* "]" : tactic =>
+  `(tactic| simp [G.callF, G.start, G.handleOf, G.setCall, G.setRet, G.setHandle, runCallF_some, runCallF_none, seqFuelF, G.step, G.fail,
+    Call.next, Call.after, SemNewSt.next, SemNewSt.after, SemFreeSt.next, SemFreeSt.after, sysStep, Sys.interruptible,
+    SemNewSt.handle, acquireNext, acquireAfter, releaseNext, releaseAfter,
+    ShmNewSt.next, ShmNewSt.after, ShmNewSt.cleanFrom, ShmFreeSt.next, ShmFreeSt.after, lockMode,
+    shmOpenF, lookupFd, OS.setProc,
+    semOpenReopenInitZero, semCreateUnlinks, semCreateMarksCreated, semOpen1Retry,
+    shmFtruncateCreatorOnly, shmLockModeByExists, shmLockInit, $ts,*])
+
 
 end PV.IPC
